@@ -504,6 +504,37 @@ def standard_check(spec, tier, seed):
                    mismatches=len(mism), spec_violations=len(viol), exhaustive=False)
         if "post" in spec:
             spec["post"](res, all_lines, judged)
+        # further correspondence phases (another driver / Corr module contributing to the same property)
+        for ph in spec.get("extra_phases", []):
+            extra2 = ph["extra_overlay"](tmpdir) if "extra_overlay" in ph else None
+            drv2, err2 = build_driver(ph["driver"], tmpdir, overlay=ph.get("overlay", False), extra_overlay=extra2)
+            info = dict(driver=ph["driver"], corr=ph["corr"])
+            cov.setdefault("phases", {})[ph["name"]] = info
+            if err2:
+                res.violation("implementation side does not build: correspondence %s cannot be checked" % ph["corr"],
+                              dict(kind="build", correspondence=ph["corr"], log=err2), False)
+                continue
+            rc2, out2, errout2 = run_driver(drv2, ph["args"](tier, seed), timeout=ph.get("timeout", 1500))
+            l2 = [l for l in out2.splitlines() if l and not l.startswith("#")]
+            if rc2 != 0 or not l2:
+                res.violation("driver %s failed (exit %s)" % (ph["driver"], rc2),
+                              dict(kind="driver", correspondence=ph["corr"], stderr=errout2[-2000:]), False)
+                continue
+            j2, e2 = judge_cases(l2, ph["corr"], tmpdir, shard=ph.get("shard", 2000))
+            if e2:
+                res.violation("model evaluation failed: %s" % e2[:300], dict(kind="judge", log=e2), False)
+                continue
+            sp2 = dict(spec, corr=ph["corr"], patterns=ph.get("patterns", {}))
+            m2, v2 = classify(res, sp2, l2, j2, known)
+            if m2 and not v2:
+                i = m2[0]
+                res.violation("correspondence %s no longer checks (model and implementation differ) and no property-violating input was found" % ph["corr"],
+                              dict(kind="correspondence", correspondence=ph["corr"], case=l2[i][:20000], judge=list(j2[i]), n_mismatching=len(m2)), False)
+            info.update(evaluations=len(l2), distinct_nontrivial=len(set(l for l, j in zip(l2, j2) if j[2] != 0)),
+                        mismatches=len(m2), spec_violations=len(v2), samples=[x[:600] for x in sample(l2, 2)])
+            cov["evaluations"] += len(l2)
+            cov["distinct_nontrivial"] += info["distinct_nontrivial"]
+            cov["traces_validated_against_impl"] += len(l2) - len(m2)
         pre = spec.get("pre_obligations")
         if pre:
             # obligations of a second tie (model regenerated from the source by a translator)
